@@ -66,6 +66,9 @@ type Verifier struct {
 	outOfSubset []string
 	cellSeq   int
 	vacProbes, vacOK int
+	suppressObs int
+	lockSnap    map[string]*State
+	firstLockSnap *State
 	curCells  *frameCells
 	goHook    func(s *State, t *ssa.Go)
 	siteSeen  map[string]int
@@ -81,7 +84,7 @@ func NewVerifier(prog *ssa.Program, fset *token.FileSet, cs *ContractSet) *Verif
 	return &Verifier{prog: prog, fset: fset, contracts: cs, obls: map[string]*Obligation{},
 		analyses: map[*ssa.Function]*fnAnalysis{}, modsets: map[*ssa.Function]map[string]Sort{},
 		trusted: map[string]bool{}, byContract: map[string]bool{}, inlinedFns: map[string]bool{},
-		siteSeen: map[string]int{}, srcCache: map[string][]string{}, maxStates: 256, assumptions: map[string]bool{}}
+		siteSeen: map[string]int{}, srcCache: map[string][]string{}, maxStates: 256, assumptions: map[string]bool{}, lockSnap: map[string]*State{}}
 }
 
 var repoRoot = "/repo"
@@ -146,6 +149,10 @@ func funcRef(fn *ssa.Function) string {
 // ---------- obligations ----------
 
 func (v *Verifier) addOb(st *State, kind string, pos token.Pos, goal *Term, clause string, props []string) {
+	if v.suppressObs > 0 {
+		st.assume(goal)
+		return
+	}
 	if goal.isTrue() {
 		// still count trivially-true sites? keep them out of solver but record
 	}
@@ -843,7 +850,11 @@ func (v *Verifier) execUnOp(s *State, t *ssa.UnOp) {
 	switch t.Op {
 	case token.MUL:
 		val := v.loadThrough(s, x, t.Pos())
-		v.set(s, t, &Value{T: t.Type(), L: val.L, LV: val.LV, Clo: val.Clo})
+		nv := &Value{T: t.Type(), L: val.L, LV: val.LV, Clo: val.Clo}
+		if g, ok := t.X.(*ssa.Global); ok {
+			nv.Orig = "global:" + shortPkg(g.Pkg.Pkg.Path()) + "." + g.Name()
+		}
+		v.set(s, t, nv)
 	case token.NOT:
 		v.set(s, t, scalar(t.Type(), Not(x.term())))
 	case token.SUB:
@@ -1060,10 +1071,6 @@ func (v *Verifier) execFieldAddr(s *State, t *ssa.FieldAddr) {
 	r := x.term()
 	v.nilCheck(s, r, t.Pos())
 	addr := Add(r, Int(fieldOffset(st, t.Field)))
-	if isStruct(ft) {
-		v.set(s, t, scalar(t.Type(), addr))
-		return
-	}
 	v.set(s, t, &Value{T: t.Type(), L: []*Term{addr}, LV: &LValue{kind: lvField, obj: r, st: stT, field: t.Field, t: ft, rootT: ft}})
 }
 
